@@ -635,3 +635,78 @@ Definition group_accepts_ok (l : list (string * bool * bool)) : bool :=
 
 Definition compress_site_ok (r : string * string * bool * bool * bool) : bool :=
   let '(_, _, has_results, recycle_ok, joins) := r in negb has_results && recycle_ok && joins.
+
+(* ---------- vhost muxer: Muxer.handle (one goroutine per connection), the unbuffered Listener.accept, the
+   proxy's accept loop on Listener.Accept, Listener.Close ---------- *)
+(* Muxer.handle:     read the host; l := getListener(..) (none: fail hook closes); ...;
+                     PanicToError(func(){ l.accept <- c }); on error: c.Close()
+   Listener.Accept:  conn, ok := <-l.accept; !ok -> error (the proxy's accept loop returns)
+   Listener.Close:   registryRouter.Del(..); close(l.accept)
+   Unlike the group worker, any number of handle goroutines may stand in the send at the same time. *)
+
+Inductive vhreq := VhConn | VhLoop | VhCloser.
+Inductive vhpc := VhLookup | VhSending | VhEnd | VhLRun | VhLEnd | VhC1 | VhC2 | VhCEnd.
+Inductive vhfate := VhNoConn | VhNew | VhPending | VhHandled | VhClosedNoRoute | VhClosedOnFail.
+
+Record vhcfg := {
+  vc_reqs : list vhreq;
+  vc_pick : nat -> nat;               (* oracle: which waiting sender the k-th receive of Accept takes *)
+  vc_close_releases : bool            (* Listener.Close releases the senders waiting in the hand-off (recover-wrapped
+                                         send on the channel Close closes, or a select on a channel Close closes) *)
+}.
+
+Record vhst := {
+  vs_routed : bool;
+  vs_chclosed : bool;                 (* Listener.Close has done its closing *)
+  vs_tick : nat;
+  vs_fate : nat -> vhfate;
+  vs_thr : nat -> option vhpc
+}.
+
+Definition v_init (cfg : vhcfg) : vhst :=
+  {| vs_routed := true; vs_chclosed := false; vs_tick := O;
+     vs_fate := fun u => match nth_error (vc_reqs cfg) u with Some VhConn => VhNew | _ => VhNoConn end;
+     vs_thr := fun t => match nth_error (vc_reqs cfg) t with
+                        | Some VhConn => Some VhLookup | Some VhLoop => Some VhLRun | Some VhCloser => Some VhC1
+                        | None => None end |}.
+
+Definition v_set s t v f := {| vs_routed := vs_routed s; vs_chclosed := vs_chclosed s; vs_tick := vs_tick s;
+  vs_fate := upd (vs_fate s) t f; vs_thr := upd (vs_thr s) t (Some v) |}.
+Definition v_thr s t v := {| vs_routed := vs_routed s; vs_chclosed := vs_chclosed s; vs_tick := vs_tick s;
+  vs_fate := vs_fate s; vs_thr := upd (vs_thr s) t (Some v) |}.
+
+Definition v_step (cfg : vhcfg) (s : vhst) (t : nat) : vhst :=
+  match vs_thr s t with
+  | Some VhLookup =>
+      if vs_routed s then v_set s t VhSending VhPending else v_set s t VhEnd VhClosedNoRoute
+  | Some VhSending =>
+      match vs_fate s t with
+      | VhHandled => v_thr s t VhEnd                       (* a receiver completed the send *)
+      | _ => if vs_chclosed s && vc_close_releases cfg
+             then v_set s t VhEnd VhClosedOnFail           (* released by Close: the dispatcher closes the connection *)
+             else s                                      (* blocked in the send *)
+      end
+  | Some VhLRun =>
+      if vs_chclosed s then v_thr s t VhLEnd              (* Accept reports the closed listener: the loop returns *)
+      else let u := vc_pick cfg (vs_tick s) in
+           match vs_fate s u with
+           | VhPending => {| vs_routed := vs_routed s; vs_chclosed := false; vs_tick := S (vs_tick s);
+                            vs_fate := upd (vs_fate s) u VhHandled; vs_thr := vs_thr s |}
+           | _ => s                                      (* nobody (or not this one) is waiting *)
+           end
+  | Some VhC1 => v_thr {| vs_routed := false; vs_chclosed := vs_chclosed s; vs_tick := vs_tick s;
+                         vs_fate := vs_fate s; vs_thr := vs_thr s |} t VhC2
+  | Some VhC2 => v_thr {| vs_routed := vs_routed s; vs_chclosed := true; vs_tick := vs_tick s;
+                         vs_fate := vs_fate s; vs_thr := vs_thr s |} t VhCEnd
+  | _ => s
+  end.
+
+Definition v_run (cfg : vhcfg) (sched : list nat) (s : vhst) : vhst := fold_left (v_step cfg) sched s.
+Definition v_exec (cfg : vhcfg) (sched : list nat) : vhst := v_run cfg sched (v_init cfg).
+
+(* checker over the translator-derived facts of T11send/paths about Muxer.handle / Listener.Close / legacy ini *)
+Definition legacy_pool_fields_ok (l : list (string * string * string)) : bool :=
+  forallb (fun r => let '(target, source, key) := r in
+             (String.eqb target "Transport.MaxPoolCount" && String.eqb source "MaxPoolCount" && String.eqb key "max_pool_count") ||
+             (String.eqb target "Transport.PoolCount" && String.eqb source "PoolCount" && String.eqb key "pool_count")) l
+  && Nat.eqb (List.length l) 2.
